@@ -32,7 +32,7 @@ QUICK_RUNS = 1200
 THOROUGH_RUNS = 80_000
 CHUNK = 10
 EXPECT_PROBES = ["partial_failure", "success", "timeout_outcome", "all_calls_failed", "pv_variant", "battery_variant",
-                 "excess_power_nonzero", "uncertain_batteries_used", "shared_inverter_group"]
+                 "excess_power_nonzero", "uncertain_batteries_used", "shared_inverter_group", "concurrent_requests"]
 
 OUTCOMES = ["ok", "out_of_range", "api_error", "unexpected", "hang"]
 TOL = 1e-6
@@ -129,30 +129,56 @@ async def _drive(sim: Sim, api: Any, actor: Any, req_tx: Any, res_rx: Any, reque
 
     ft = sim.spawn(feed())
     await asyncio.sleep(1.5)
-    for rq in requests:
+    i = 0
+    while i < len(requests):
+        # one request, or two requests for disjoint component sets in flight at the same time (the distributor
+        # processes different groups concurrently on the same manager)
+        batch = [requests[i]]
+        if requests[i].get("pair_with_next") and i + 1 < len(requests) and not (
+                set(requests[i]["ids"]) & set(requests[i + 1]["ids"])):
+            batch.append(requests[i + 1])
+            sim.probe("concurrent_requests")
+        i += len(batch)
         ncalls = len(api.calls)
-        req = Request(power=Power.from_watts(rq["power"]), component_ids=rq["ids"], adjust_power=rq["adjust"])
-        sim.ev("request", "", rq["power"])
-        sim.note(f"request {rq['power']} W ids={sorted(rq['ids'])} adjust={rq['adjust']}")
-        await req_tx.send(req)
-        try:
-            res = await asyncio.wait_for(res_rx.receive(), timeout=timeout_s * 3 + 5)
-        except asyncio.TimeoutError:
-            sim.probe("no_result")
-            sim.ev("result", "none")
-            continue
-        calls = api.calls[ncalls:]
-        sim.ev("result", type(res).__name__)
-        sim.note(f"result {type(res).__name__}: calls {[(c['cid'], round(c['w'], 2), c['outcome']) for c in calls]}")
-        if isinstance(res, (Success, PartialFailure)):
-            sim.probe("partial_failure" if isinstance(res, PartialFailure) else "success")
-            if res.request is not req and res.request != req:
-                sim.soft_violation("result_request", {"category": category}, "result carries a different request")
-            _check_result(sim, res, rq["power"], calls, comps_of, category)
-        elif calls:
-            sim.soft_violation("error_without_calls", {"category": category, "result": type(res).__name__},
-                               f"{type(res).__name__} returned but set_power was called: {calls}")
-        await asyncio.sleep(rq["gap_s"])
+        reqs = []
+        for j, rq in enumerate(batch):
+            req = Request(power=Power.from_watts(rq["power"]), component_ids=rq["ids"], adjust_power=rq["adjust"])
+            reqs.append(req)
+            sim.ev("request", "", rq["power"])
+            sim.note(f"request {rq['power']} W ids={sorted(rq['ids'])} adjust={rq['adjust']}"
+                     + (" (concurrent pair)" if len(batch) > 1 else ""))
+            await req_tx.send(req)
+            if j == 0 and len(batch) > 1:
+                await asyncio.sleep(rq.get("pair_gap_s", 0.0))
+        got: dict[int, Any] = {}
+        for _ in batch:
+            try:
+                res = await asyncio.wait_for(res_rx.receive(), timeout=timeout_s * 3 + 5)
+            except asyncio.TimeoutError:
+                sim.probe("no_result")
+                sim.ev("result", "none")
+                break
+            for j, req in enumerate(reqs):
+                if res.request is req or (j not in got and res.request == req):
+                    got[j] = res
+                    break
+            else:
+                sim.soft_violation("result_request", {"category": category}, f"result for an unknown request: {res}")
+        all_calls = api.calls[ncalls:]
+        for j, rq in enumerate(batch):
+            res = got.get(j)
+            if res is None:
+                continue
+            calls = all_calls if len(batch) == 1 else [c for c in all_calls if comps_of(c["cid"]) <= set(rq["ids"])]
+            sim.ev("result", type(res).__name__)
+            sim.note(f"result {type(res).__name__}: calls {[(c['cid'], round(c['w'], 2), c['outcome']) for c in calls]}")
+            if isinstance(res, (Success, PartialFailure)):
+                sim.probe("partial_failure" if isinstance(res, PartialFailure) else "success")
+                _check_result(sim, res, rq["power"], calls, comps_of, category)
+            elif calls:
+                sim.soft_violation("error_without_calls", {"category": category, "result": type(res).__name__},
+                                   f"{type(res).__name__} returned but set_power was called: {calls}")
+        await asyncio.sleep(batch[-1]["gap_s"])
     ft.cancel()
     await actor.stop()
 
@@ -213,7 +239,15 @@ def _battery(sim: Sim) -> None:
             k = ch.draw("subset_group", ngroups)
             sub = frozenset(groups[k][1])
         requests.append({"power": round(sign * frac * total_incl, 3) or 1.0, "ids": sub,
-                         "adjust": bool(ch.weighted("adjust", [3, 1]) == 0), "gap_s": ch.choice("gap_s", [0.05, 0.6, 2.5])})
+                         "adjust": bool(ch.weighted("adjust", [3, 1]) == 0), "gap_s": ch.choice("gap_s", [0.05, 0.6, 2.5]),
+                         "pair_with_next": ngroups > 1 and ch.chance("pair", 0.3),
+                         "pair_gap_s": ch.choice("pair_gap_s", [0.0, 0.05, 0.3])})
+    for a_, b_ in zip(requests, requests[1:]):
+        if a_["pair_with_next"]:
+            # two different groups: the pair addresses disjoint battery sets
+            ka = ch.draw("pair_group_a", ngroups)
+            kb = (ka + 1 + ch.draw("pair_group_b", ngroups - 1)) % ngroups
+            a_["ids"], b_["ids"] = frozenset(groups[ka][1]), frozenset(groups[kb][1])
     sim.config.update(category="battery", groups=groups, faulty=faulty, nreq=nreq)
     sim.note(f"battery groups (inverters, batteries) {groups} faulty={faulty}")
     sim.set_cost_mode(ch.weighted("cost_mode", [3, 1]))
@@ -278,7 +312,14 @@ def _pv(sim: Sim) -> None:
         ids = frozenset(inv_ids)
         if n > 1 and ch.chance("subset", 0.3):
             ids = frozenset(ch.shuffle("sub", inv_ids)[: ch.int_between("subn", 1, n - 1)])
-        requests.append({"power": p, "ids": ids, "adjust": True, "gap_s": ch.choice("gap_s", [0.05, 0.6, 2.5])})
+        requests.append({"power": p, "ids": ids, "adjust": True, "gap_s": ch.choice("gap_s", [0.05, 0.6, 2.5]),
+                         "pair_with_next": n > 1 and ch.chance("pair", 0.3),
+                         "pair_gap_s": ch.choice("pair_gap_s", [0.0, 0.05, 0.3])})
+    for a_, b_ in zip(requests, requests[1:]):
+        if a_["pair_with_next"]:
+            order = ch.shuffle("pair_split", inv_ids)
+            cut = ch.int_between("pair_cut", 1, n - 1)
+            a_["ids"], b_["ids"] = frozenset(order[:cut]), frozenset(order[cut:])
     sim.config.update(category="pv", inverters=inv_ids, lower=lower, faulty=faulty, nreq=nreq)
     sim.note(f"pv inverters {inv_ids} lower bounds {lower} faulty={faulty}")
     sim.set_cost_mode(ch.weighted("cost_mode", [3, 1]))
